@@ -3,7 +3,7 @@
 import json, os, sys, subprocess
 ROOT = os.path.dirname(os.path.dirname(os.path.abspath(__file__)))
 sys.path.insert(0, os.path.join(ROOT, "lib"))
-from props import PROPS
+from props import PROPS, TIE_CODE, WINDOWS
 from manifest_text import TEXT, NOT_YET
 ids = [json.loads(l)["id"] for l in open(os.path.join(ROOT, "properties.jsonl"))]
 hooks_commits = []
@@ -15,7 +15,15 @@ except Exception:
 checks, na = [], []
 for pid in ids:
     if pid in PROPS and pid in TEXT:
-        t = TEXT[pid]
+        t = dict(TEXT[pid])
+        if pid in TIE_CODE:
+            t["level_text"] += (" Tie by translation: on every run the lock-holding Rust functions this property talks about are translated to Lean "
+                                "(extract/rs2lean.py -> Kanal/GenCode.lean) and proved equal to the fine-grained model built from the same critical-section "
+                                f"functions as the channel model (Kanal/TieCode.lean, {len(set(TIE_CODE[pid])) + 2} theorems among this check's obligations).")
+            t["technique"] += " + Rust-to-Lean translation of the lock-holding code proved equal to the model on every run"
+            t["level_note"] += " The translator (parser, lowering, effect tables) is trusted to the extent described in DESIGN.md §4.1b."
+        if pid in WINDOWS:
+            t["level_text"] += f" Scheduled runs include systematic single-preemption sweeps of {len(WINDOWS[pid])} race templates (DESIGN.md §4.3.2)."
         checks.append({
             "property_id": pid,
             "quick_cmd": f"./check {pid} --tier quick",
@@ -36,7 +44,7 @@ m = {
               "baseline_off_cmd": "cd /repo && cargo test --workspace --no-fail-fast --offline",
               "source_commits": hooks_commits, "add_only": True},
     "engines": [{"name": "lean4+differential", "path": "/verif/check", "serves_properties": [c["property_id"] for c in checks],
-                 "kind_free_text": "Lean 4 theorems over hand-written models (lean/Kanal), tied to /repo by a fact extractor with tie theorems, a sequential differential against the real crate (specgen oracle vs seqdrv) and trace validation under a controlled scheduler"}],
+                 "kind_free_text": "Lean 4 theorems over hand-written models (lean/Kanal), tied to /repo by a Rust-to-Lean translator for the lock-holding code whose output is proved equal to the model on every run, a fact extractor with tie theorems, a sequential differential against the real crate (specgen oracle vs seqdrv) and trace validation under a controlled scheduler"}],
     "checks": checks,
     "not_applicable": na,
     "notes": "See DESIGN.md. known_findings.json lists repaired defects (fix: commits in /repo) and any recorded findings.",
